@@ -118,6 +118,15 @@ def main():
             wall=400 if chk.quick else 3000, vacuity=("ok", "SyntaxError"), path_wall=120.0)
     chk.on_record = old
     X = repo().real
+    # large concrete sizes (k=0 and one error variant): growth that only shows at depth > 60
+    big = (24, 48, 96) if chk.quick else (64, 128, 256)
+    for fam in fams:
+        for where, repl in (("inner", "QQ"), ("inner", "1 1"), ("last", ")")):
+            v = oracles2.c18(X, fam, repl, where, list(big))
+            chk.validated += 1
+            if v is not None:
+                chk.add_candidate({"oracle": "c18", "args": [fam, repl, where, list(big)], "kwargs": {}, "v": v})
+    chk.extra["large_sizes"] = list(big)
     checked = 0
     cands = 0
     for (fam, where), by_size in table.items():
